@@ -199,6 +199,19 @@ def step (_ : Unit) (w : List String) : Unit × String :=
         ((), fmtVal tgt (valueConvert src tgt x true) (valueConvert src tgt x false) ++ " | S " ++ altsVal (expected src tgt x))
       | none => ((), "bad-op")
     | _, _ => ((), "bad-op")
+  | ["c", "consume", s, t, v] =>
+    -- `mpt_iterator_consume`: `mpt_value_convert` into a temporary, then a copy of the target's size;
+    -- the return value is the source type code
+    match Ty.ofName s, Ty.ofName t with
+    | some src, some tgt =>
+      match parseSrc src v with
+      | some x =>
+        let f (d : Bool) : Res (Option Out × Nat) := match valueConvert src tgt x d with
+          | .ok (o, _) => .ok (o, src.code)
+          | r => r
+        ((), fmtVal tgt (f true) (f false) ++ " | S " ++ altsVal (expected src tgt x))
+      | none => ((), "bad-op")
+    | _, _ => ((), "bad-op")
   | ["c", "sweep", s, t, lo, hi] =>
     match Ty.ofName s, Ty.ofName t, lo.toInt?, hi.toInt? with
     | some src, some tgt, some lo, some hi =>
